@@ -126,6 +126,10 @@ func run(r *hx.Run) error {
 			op := fmt.Sprintf("sigclose seed=%d keys=%d", rng.Intn(1<<30), rng.Range(4, 30))
 			res, _ := h.replayOp(strings.Fields(op))
 			r.Emit(op, res)
+		case i%10 == 9 && i%20 == 19:
+			op := fmt.Sprintf("sigsuspend seed=%d delay=%d", rng.Intn(1<<30), rng.Range(0, 200))
+			res, _ := h.replayOp(strings.Fields(op))
+			r.Emit(op, res)
 		case i%10 == 9:
 			op := fmt.Sprintf("dblclose seed=%d n=%d", rng.Intn(1<<30), rng.Range(2, 3))
 			res, _ := h.replayOp(strings.Fields(op))
@@ -147,7 +151,7 @@ func run(r *hx.Run) error {
 		}
 	}
 	// race-detector run of the same schedule kinds in a child process
-	for _, grp := range []string{"use", "dblclose"} {
+	for _, grp := range []string{"use", "dblclose", "sigsuspend"} {
 		r.Case("race-" + grp)
 		r.Emit("race "+grp, h.raceRun(grp))
 	}
@@ -215,6 +219,10 @@ func (h *H) replayOp(f []string) (string, bool) {
 		}
 		res := forcedCase(kind, m["q"], m["keys"])
 		count("forced:" + kind + ":" + strings.Fields(res)[0])
+		return res, true
+	case "sigsuspend":
+		res := sigSuspendCase(uint64(m["seed"]), m["delay"])
+		count("sigsuspend:" + strings.Fields(res)[0])
 		return res, true
 	case "dblclose":
 		res := dblCloseCase(uint64(m["seed"]), m["n"])
@@ -1172,6 +1180,100 @@ func dblCloseCase(seed uint64, n int) string {
 	return fmt.Sprintf("close-%s leak=%d", res, leak)
 }
 
+// ---------- F210: the application's Suspend concurrent with a Close from the kill-signal arm ----------
+
+// sigSuspendCase: the main goroutine calls Suspend while a kill signal makes the input goroutine call
+// Close (which calls Suspend too); `delay` (µs) shifts the signal against the call.  Both must return,
+// chQuit must be closed, nothing may be left.  (Round 3: `vx.suspended` was a plain field read and
+// written by both — data race, two close signals for one parser or console.Close under a running
+// Suspend; Suspend and Resume are now serialised by a mutex.)
+func sigSuspendCase(seed uint64, delay int) string {
+	base := goroutines()
+	baseI := countIn(stackDump(), "(*Vaxis).openTty.func1", "")
+	vx, fc, err := newVx(0, 0)
+	if err != nil {
+		return "error new"
+	}
+	stop := make(chan struct{})
+	cdone := make(chan struct{})
+	go func() {
+		defer close(cdone)
+		for {
+			select {
+			case <-vx.Events():
+			case <-stop:
+				return
+			}
+		}
+	}()
+	fc.InjectString(strings.Repeat("k", int(seed%4)))
+	sdone := make(chan string, 1)
+	suspend := func() {
+		go func() {
+			defer func() {
+				if e := recover(); e != nil {
+					sdone <- fmt.Sprint(e)
+					return
+				}
+				sdone <- ""
+			}()
+			vx.Suspend()
+		}()
+	}
+	// even delay: the signal first, then (delay/2 µs later) the call; odd: the call first
+	if delay%2 == 0 {
+		vx.VerifC10SignalKill()
+		time.Sleep(time.Duration(delay/2) * time.Microsecond)
+		suspend()
+	} else {
+		suspend()
+		time.Sleep(time.Duration(delay/2) * time.Microsecond)
+		vx.VerifC10SignalKill()
+	}
+	res := "ok"
+	pmsg := ""
+	select {
+	case pmsg = <-sdone:
+		if pmsg != "" {
+			res = "suspend-panic"
+		}
+	case <-time.After(bound):
+		res = "suspend-hang"
+	}
+	if res == "ok" {
+		// Was the signal served?  Definite events only: first the input goroutine must be gone (Suspend
+		// has stopped its parser, so it returns on EOF / the closed channel, or after the Close of its
+		// signal arm); then the signal is either still in chSigKill (it arrived after the goroutine had
+		// left its select: nobody serves it, the session is suspended — not a defect) or was taken, and
+		// then Close has run to its end on that goroutine: chQuit is closed.
+		deadline := time.Now().Add(bound)
+		for countIn(stackDump(), "(*Vaxis).openTty.func1", "") > baseI && time.Now().Before(deadline) {
+			time.Sleep(time.Millisecond)
+		}
+		if countIn(stackDump(), "(*Vaxis).openTty.func1", "") > baseI {
+			res = "quit-hang" // the input goroutine is stuck (inside Close, or in its loop)
+		} else if !vx.VerifC10SignalKill() {
+			res = "ok-unserved"
+		} else {
+			select {
+			case <-vx.VerifC03QuitChan():
+			default:
+				res = "quit-missing" // the signal was taken but Close did not complete
+			}
+		}
+	}
+	if res != "ok" && res != "ok-unserved" {
+		fc.Close() // release whatever is stuck
+	}
+	close(stop)
+	select {
+	case <-cdone:
+	case <-time.After(bound):
+	}
+	leak := waitGoroutines(base, goneBound)
+	return fmt.Sprintf("%s panic=%q leak=%d", res, pmsg, leak)
+}
+
 // ---------- race-detector child ----------
 
 func (h *H) raceRun(grp string) string {
@@ -1265,6 +1367,11 @@ func raceChild() {
 		if grp == "dblclose" {
 			res = dblCloseCase(rng.U64(), rng.Range(2, 3))
 			if !strings.HasPrefix(res, "close-ok") {
+				bad++
+			}
+		} else if grp == "sigsuspend" {
+			res = sigSuspendCase(rng.U64(), rng.Range(0, 200))
+			if !strings.HasPrefix(res, "ok") {
 				bad++
 			}
 		} else if i%3 == 2 {
